@@ -155,8 +155,8 @@ def check(ob, ctx, timeout_ms=10000, want_model=True, use_cvc5=True, wall_ms=Non
     except Exception as e:  # grounding must never turn into a verdict
         return {"status": "error", "reason": f"grounding: {type(e).__name__}: {e}", "time": time.time() - t0}
     s = z3.Solver()
-    s.set("rlimit", timeout_ms * 4000)
-    s.set("timeout", wall_ms or max(timeout_ms * 6, 30000))
+    s.set("rlimit", timeout_ms * 1500)
+    s.set("timeout", wall_ms or max(timeout_ms * 2, 10000))
     for h in hyps:
         s.add(h)
     s.add(z3.Not(goal))
